@@ -48,7 +48,7 @@ def cases(ctx):
     srcs = [("G2", p) for p in (rng.sample(g2, 150) if ctx.quick else rng.sample(g2, 2000))]
     for j in range(80 if ctx.quick else 1000):
         r = ctx.rng("C09g3", j)
-        c = gen.rand_circuit(r, n_in=r.randint(1, 4), n_gates=r.randint(2, 8), max_fanin=3, consts=0.2, out_is_input=0.4)
+        c = gen.rand_circuit(r, n_in=r.randint(1, 4), n_gates=r.randint(2, 8), max_fanin=3, consts=0.2, out_is_input=0.4, loaded_in_out=0.2)
         srcs.append(("G3", proj(c)))
     for k, (src, p) in enumerate(srcs):
         r = ctx.rng("C09p", k)
@@ -64,6 +64,18 @@ def cases(ctx):
         c = gen.rand_circuit(r, n_in=r.randint(1, 3), n_gates=r.randint(2, 7), max_fanin=3, out_is_input=0.3)
         nf = r.randint(1, 3)
         gen.add_flops(r, c, nf)
+        if r.random() < 0.3:
+            # primary ports whose names end like pin names (en_clk, y_q, s_d)
+            import networkx as nx
+
+            ren = {}
+            for n in sorted(c.graph.nodes):
+                t = c.graph.nodes[n]["type"]
+                if t == "input" and n != "clk" and r.random() < 0.5:
+                    ren[n] = n + r.choice(["_clk", "_d", "_q"])
+                elif c.graph.nodes[n].get("output") and t not in ("bb_input", "bb_output", "input") and r.random() < 0.5:
+                    ren[n] = n + r.choice(["_clk", "_d", "_q"])
+            nx.relabel_nodes(c.graph, ren, copy=False)
         p = proj(c)
         insts = sorted(c.blackboxes)
         ivs = [None, "0", "1", "x"]
